@@ -629,7 +629,9 @@ def _ref_batching(lens, hard, cfg, n_lim, l_lim, s_lim, cmdlen, outcomes):
             cur.append(i)
             continue
         over_s = cfg["s"] and (cmdlen + 1) + sum(lens[j] + 1 for j in cur + [i]) > s_lim
-        if over_s and cfg["x"] and (cfg["n"] or cfg["L"]):
+        counts_ok = (not cfg["n"] or len(cur) + 1 <= n_lim) and (not cfg["L"] or 1 + sum(1 for j in cur if hard[j]) <= l_lim)
+        # -x: an -s overflow inside an invocation that -n / -L still allow is fatal; when the count limit holds the argument back the invocation is simply complete
+        if over_s and counts_ok and cfg["x"] and (cfg["n"] or cfg["L"]):
             return batches, 1
         if cur and run_batch(cur):
             return batches, 124
@@ -1098,6 +1100,9 @@ def wiring_cli(w, repo):
                 f.write("a" * 100000 + "\n")
         rc, out, err = run([xargs_bin(repo), "-a", big, "-s", "3000000", "true"], cwd=d, env={"PATH": os.environ.get("PATH", "/usr/bin:/bin")})
         res.append(("-s 3000000 with 3 MB of arguments: rc=%d %s" % (rc, err.decode(errors="replace").strip()[:80]), rc == 0))
+        # the command and its fixed arguments are charged to the system budget also when -n is in force: 40 x 100 kB with a fixed 100 kB argument
+        rc, out, err = run([xargs_bin(repo), "-a", big, "-n", "1000", "true", "x" * 100000], cwd=d, env={"PATH": os.environ.get("PATH", "/usr/bin:/bin")})
+        res.append(("-n 1000 with a 100 kB fixed argument and 3 MB of input: rc=%d %s" % (rc, err.decode(errors="replace").strip()[:80]), rc == 0))
         rc, calls, err = _xargs(repo, d, ["-n2"], b"a b c d e\n")
         res.append(("-n2 %r" % calls, calls == [["a", "b"], ["c", "d"], ["e"]]))
         rc, calls, err = _xargs(repo, d, ["-L1"], b"a b\nc\n")
@@ -1150,3 +1155,39 @@ def clock_cli(w, repo):
         rc, out, err = run([find_bin(repo), "slow", "f", "(", "-name", "slow", "-exec", "sleep", "4", ";", ")", "-o", "-name", "f", "-mmin", "-1", "-print"], cwd=d)
         got = out.decode(errors="replace").split()
         return _battery([("a file 57 s old at start, first time test evaluated 4 s later: -mmin -1 selected %r (rc=%d)" % (got, rc), got == ["f"])])
+
+
+def subject_cli(w, repo):
+    """exact: the witness's entry (file, or symbolic link with the witness's target) on disk; `find START PRIMARY GLOB` must select it iff the C12 reference says so"""
+    import sys
+    mdir = os.path.join(os.path.dirname(os.path.dirname(os.path.abspath(__file__))), "mirsym")
+    if mdir not in sys.path:
+        sys.path.insert(0, mdir)
+    from fnmatch_ref import fnmatch_ref
+    if not build(repo):
+        return None, "build failed"
+    prim, glob, ent = w.get("primary"), w.get("glob"), w.get("entry")
+    if not prim or glob is None or not ent:
+        return None, "witness without primary / glob / entry"
+    path, kind, target = ent
+    start = path if kind == "E" else ("./" + path.split("/")[1] if path.startswith("./") else path.split("/")[0])
+    fold = prim.startswith("-i")
+    if "lname" in prim:
+        subj = target
+    elif "name" in prim:
+        subj = [c for c in path.split("/") if c][-1]
+    else:
+        subj = path
+    want = False if subj is None else (fnmatch_ref(glob.lower(), subj.lower()) if fold else fnmatch_ref(glob, subj))
+    with Sandbox() as d:
+        full = os.path.join(d, path.rstrip("/"))
+        os.makedirs(os.path.dirname(full), exist_ok=True)
+        if path.endswith("/") or (kind == "E" and "/" not in path.rstrip("/") and path.rstrip("/") in ("r",)):
+            os.makedirs(full, exist_ok=True)
+        elif target is not None:
+            os.symlink(target, full)
+        elif not os.path.exists(full):
+            open(full, "w").close()
+        rc, out, err = run([find_bin(repo), start, prim, glob], cwd=d)
+        got = path in out.decode(errors="replace").split("\n")
+        return (got != want), "find %s %s %r: %r %s (rc=%d); reference: %s" % (start, prim, glob, path, "selected" if got else "not selected", rc, "selected" if want else "not selected")
